@@ -37,7 +37,9 @@ type World struct {
 	// generated mix. They re-list features that are already scheduled (same height: no behaviour change, but the stored list is
 	// merged and de-duplicated) and schedule feature keys no code path consults, so oracles that model behaviour are unaffected.
 	GovUpgrades bool
-	entropy     int64
+	// JailedAtGenesis: index of the node that the genesis file lists as jailed (0 = none; node0 is never jailed)
+	JailedAtGenesis int
+	entropy         int64
 }
 
 // Chains used by generated nodes/apps (all supported by the default pocketcore params).
@@ -126,6 +128,20 @@ func GenWorld(rt *rapid.T) *World {
 		s.NodeParams.ProposerAllocation = 1
 	}
 	w.OddRecipients = rapid.Bool().Draw(rt, "oddRecipientWorldA") && rapid.Bool().Draw(rt, "oddRecipientWorldB")
+	// in a quarter of the worlds one genesis validator (never node0, which proposes the blocks, and only when two other
+	// genesis validators remain) is listed as staked and jailed in the genesis file
+	if rapid.Bool().Draw(rt, "jailedAtGenesisA") && rapid.Bool().Draw(rt, "jailedAtGenesisB") {
+		var cand []int
+		for i, ns := range s.Nodes {
+			if !ns.ViaTx {
+				cand = append(cand, i)
+			}
+		}
+		if len(cand) >= 3 && cand[len(cand)-1] != 0 {
+			s.Nodes[cand[len(cand)-1]].JailedAtGenesis = true
+			w.JailedAtGenesis = cand[len(cand)-1]
+		}
+	}
 	return w
 }
 
@@ -137,6 +153,9 @@ func (w *World) Describe() string {
 		sep := ""
 		if hex.EncodeToString(Addr(w.Outputs[i])) != hex.EncodeToString(Addr(n.Key)) {
 			sep = "+out"
+		}
+		if n.JailedAtGenesis {
+			sep += "+jailed-at-genesis"
 		}
 		d += fmt.Sprintf("%d%s/%dch/%ddel ", n.Stake/1_000_000, sep, len(n.Chains), len(n.Delegators))
 	}
